@@ -58,6 +58,7 @@ type rampStream struct {
 	mu   sync.Mutex
 	last *traits.Brightness
 	n    int
+	all  []*traits.Brightness
 }
 
 func (s *rampStream) Context() context.Context { return s.ctx }
@@ -66,6 +67,7 @@ func (s *rampStream) Send(m *traits.PullBrightnessResponse) error {
 	defer s.mu.Unlock()
 	for _, c := range m.Changes {
 		s.last = proto.Clone(c.Brightness).(*traits.Brightness)
+		s.all = append(s.all, s.last)
 		s.n++
 	}
 	return nil
@@ -90,17 +92,48 @@ func rampCase(r *vk.Run, ramp, delay time.Duration) {
 	defer cancel()
 	st := &rampStream{ctx: ctx}
 	go func() { _ = dev.PullBrightness(&traits.PullBrightnessRequest{Name: "d"}, st) }()
+	// a second subscriber that does not want the ramp's progress
+	quiet := &rampStream{ctx: ctx}
+	go func() {
+		_ = dev.PullBrightness(&traits.PullBrightnessRequest{Name: "d", ExcludeRamping: true}, quiet)
+	}()
 	vk.Quiesce()
 	key := func(c string) string { return "C14/lightpb.MemoryDevice/Brightness/ramp-then-plain/" + c }
 	desc := fmt.Sprintf("lightpb.MemoryDevice: UpdateBrightness(level 80, tween %v), %v later UpdateBrightness(level 5) without a tween", ramp, delay)
 	replay := map[string]any{"ramp": ramp.String(), "plain_update_after": delay.String()}
-	_, err := dev.UpdateBrightness(ctx, &traits.UpdateBrightnessRequest{Name: "d", Brightness: &traits.Brightness{LevelPercent: 80, BrightnessTween: &types.Tween{TotalDuration: durationpb.New(ramp)}}})
+	started := time.Now()
+	resp0, err := dev.UpdateBrightness(ctx, &traits.UpdateBrightnessRequest{Name: "d", Brightness: &traits.Brightness{LevelPercent: 80, BrightnessTween: &types.Tween{TotalDuration: durationpb.New(ramp)}}})
 	if err != nil {
 		r.Inconclusive(key("setup"), desc+": the ramped Update failed: "+err.Error())
 		return
 	}
-	if delay > 0 {
-		time.Sleep(delay)
+	resp0 = proto.Clone(resp0).(*traits.Brightness)
+	// The ramped Update is a successful Update that changed the value: its response is on every open stream. Decided
+	// without a clock: at the quiescent point after the Update everything published has been delivered; when the plain
+	// stream holds exactly the seed and this response, no tick of the ramp has been published yet, and then the
+	// subscriber that excludes ramp progress must hold the response too (it is the start of the ramp, not progress).
+	vk.Quiesce()
+	st.mu.Lock()
+	plain := append([]*traits.Brightness{}, st.all...)
+	st.mu.Unlock()
+	quiet.mu.Lock()
+	q := append([]*traits.Brightness{}, quiet.all...)
+	quiet.mu.Unlock()
+	if len(plain) == 2 && proto.Equal(plain[1], resp0) {
+		r.Count("ramp/start-checked", 1)
+		found := false
+		for _, b := range q {
+			found = found || proto.Equal(b, resp0)
+		}
+		if !found {
+			r.Violation(key("ramp-start-not-on-stream/exclude-ramping"), fmt.Sprintf("lightpb.MemoryDevice: UpdateBrightness(level 80, tween %v) returned %s, which the plain Pull stream carries; the stream opened with exclude_ramping holds only %s at the quiescent point after the Update (no ramp tick published yet)", ramp, vk.JSON(resp0), renderBrightness(q)), replay)
+			return
+		}
+	} else {
+		r.Count("ramp/start-not-checked(tick-intervened)", 1)
+	}
+	if rest := delay - time.Since(started); rest > 0 {
+		time.Sleep(rest)
 	}
 	resp, err := dev.UpdateBrightness(ctx, &traits.UpdateBrightnessRequest{Name: "d", Brightness: &traits.Brightness{LevelPercent: 5}})
 	if err != nil {
@@ -136,4 +169,12 @@ func rampCase(r *vk.Run, ramp, delay time.Duration) {
 	if n == 0 || !proto.Equal(last, resp) {
 		r.Violation(key("stream-end"), fmt.Sprintf("%s returned %s; the Pull stream opened before it ends (after %d values) on %s", desc, vk.JSON(resp), n, vk.JSON(last)), replay)
 	}
+}
+
+func renderBrightness(l []*traits.Brightness) string {
+	var ss []string
+	for _, b := range l {
+		ss = append(ss, vk.JSON(b))
+	}
+	return "[" + strings.Join(ss, ", ") + "]"
 }
